@@ -31,7 +31,7 @@ ASSUMPTIONS = [
 REAL = REAL_ALL
 STUB = STUB_ALL + ["a pass-through tee around CsvLineSpooler.append records what the run handed to the archive"]
 
-POLICIES = [["collect", "print"], ["collect"], ["collect", "fail"], ["collect", "stop", "print"], ["print"], ["collect", "fail", "stop", "print"]]
+POLICIES = [["collect", "print"], ["collect"], ["collect", "fail"], ["collect", "stop", "print"], ["print"], ["collect", "fail", "stop", "print"], ["collect", "quiet"], ["quiet", "fail", "print"]]
 
 TEE = {}
 _orig_append = CsvLineSpooler.append
